@@ -23,7 +23,7 @@ HEADER = ('From Coq Require Import List.\nImport ListNotations.\n'
 
 LOGICS = ['CPL', 'CFOL', 'FDE', 'K3', 'LP', 'L3', 'G3', 'RM3', 'K3W', 'K3WQ', 'B3E', 'GO', 'MH', 'NH', 'P3',
           'K', 'D', 'T', 'S4', 'S5', 'KFDE', 'KK3', 'TLP', 'S4G3', 'S5L3', 'S4GO', 'KRM3', 'S5B3E']
-QUICK_LOGICS = ['CPL', 'CFOL', 'FDE', 'K3', 'LP', 'L3', 'G3', 'GO', 'MH', 'K3WQ', 'K', 'D', 'T', 'S4', 'S5',
+QUICK_LOGICS = ['CPL', 'CFOL', 'FDE', 'K3', 'LP', 'L3', 'G3', 'GO', 'MH', 'NH', 'P3', 'B3E', 'K3WQ', 'K', 'D', 'T', 'S4', 'S5',
                 'KFDE', 'S4G3', 'S5L3']
 OPTS = [dict(is_group_optim=g, is_rank_optim=r) for g in (True, False) for r in (True, False)]
 
@@ -46,10 +46,15 @@ def gen_cases(tier: str, seed: int) -> list[dict]:
     # a fixed core: every option combination on a branching, a modal and a quantified argument
     core = [('CPL', 'Biconditional Elimination 1'), ('K', 'Modal Transformation 2'),
             ('CFOL', 'Syllogism'), ('FDE', 'DeMorgan 3'), ('S4', 'S4 Material Inference 1'),
-            ('GO', 'Conditional Contraction'), ('K3WQ', 'Quantifier Interdefinability 1')]
+            ('GO', 'Conditional Contraction'), ('K3WQ', 'Quantifier Interdefinability 1'),
+            # rules with four extensions (structures with >= 4 children)
+            ('B3E', 'Material Biconditional Identity'), ('MH', 'DeMorgan 3'), ('NH', 'DeMorgan 2'),
+            ('P3', 'Biconditional Identity'),
+            # the world limit flagged on several branches by one rule instance
+            ('TK3WQ', 'S5 Conditional Inference 1'), ('S5K3WQ', 'S5 Material Inference 1')]
     for lg, a in core:
         if a in names:
-            for o in OPTS:
+            for o in (OPTS if lg in ('CPL', 'K', 'CFOL', 'FDE', 'S4', 'GO', 'K3WQ') else OPTS[:1]):
                 cases.append(dict(logic=lg, arg=a, opts=dict(o)))
                 seen.add((lg, a, o['is_group_optim'], o['is_rank_optim'], None))
     while len(cases) < n:
